@@ -124,7 +124,8 @@ class Report:
 	def write_replay(self, name: str, payload: dict) -> str:
 		d = os.path.join(EVIDENCE_DIR, 'replays')
 		os.makedirs(d, exist_ok=True)
-		path = os.path.join(d, f'{self.prop}-{name}.json')
+		safe = ''.join(c if c.isalnum() or c in '.-_' else '_' for c in name)
+		path = os.path.join(d, f'{self.prop}-{safe}.json')
 		with open(path, 'w') as f:
 			json.dump(payload, f, indent=1, default=repr)
 		return path
